@@ -177,10 +177,31 @@ class FreeCalc(Calculator):
         n = len(self.atoms)
         self.results["energy"] = 0.0
         self.results["forces"] = np.zeros((n, 3))
+
+
+class SpringCalc(Calculator):
+    """Harmonic spring between atoms 0 and 1 (raw coordinate difference): forces that vary along the trajectory."""
+    implemented_properties = ["energy", "forces"]
+    K, R0 = 0.35, 2.0
+
+    def calculate(self, atoms=None, properties=("energy",), system_changes=all_changes):
+        super().calculate(atoms, properties, system_changes)
+        pos = self.atoms.get_positions()
+        n = len(pos)
+        f = np.zeros((n, 3))
+        e = 0.0
+        if n >= 2:
+            d = pos[1] - pos[0]
+            r = float(np.linalg.norm(d))
+            e = 0.5 * self.K * (r - self.R0) ** 2
+            g = self.K * (r - self.R0) * d / r
+            f[0], f[1] = g, -g
+        self.results["energy"] = e
+        self.results["forces"] = f
 '''
 
 
-def make_ase(root, temperature=300.0, integrator="velocityverlet", subcycles=1, timestep=1.0, fixcm=False):
+def make_ase(root, temperature=300.0, integrator="velocityverlet", subcycles=1, timestep=1.0, fixcm=False, forces=False):
     from infretis.classes.engines.ase_engine import ASEEngine
 
     os.makedirs(root, exist_ok=True)
@@ -190,7 +211,7 @@ def make_ase(root, temperature=300.0, integrator="velocityverlet", subcycles=1, 
     kw = {}
     if integrator == "langevin":
         kw = {"langevin_friction": 0.01, "langevin_fixcm": bool(fixcm)}
-    eng = ASEEngine(timestep, temperature, subcycles, root, integrator, {"module": calc, "class": "FreeCalc"}, **kw)
+    eng = ASEEngine(timestep, temperature, subcycles, root, integrator, {"module": calc, "class": "SpringCalc" if forces else "FreeCalc"}, **kw)
     exe = os.path.join(root, "exe")
     os.makedirs(exe, exist_ok=True)
     eng.exe_dir = exe
@@ -208,7 +229,7 @@ def ase_frame(path, symbols, masses, pos, vel, cell=30.0):
     return at
 
 
-def make_turtlemd(root, masses, pos, temperature=1.0, boltzmann=1.0, integrator="VelocityVerlet", subcycles=1, timestep=0.01, dim=3, user_seed=None):
+def make_turtlemd(root, masses, pos, temperature=1.0, boltzmann=1.0, integrator="VelocityVerlet", subcycles=1, timestep=0.01, dim=3, user_seed=None, forces=False):
     from infretis.classes.engines.turtlemdengine import TurtleMDEngine
 
     os.makedirs(root, exist_ok=True)
@@ -220,7 +241,7 @@ def make_turtlemd(root, masses, pos, temperature=1.0, boltzmann=1.0, integrator=
     n = len(masses)
     eng = TurtleMDEngine(
         timestep, subcycles, temperature, boltzmann, integ,
-        {"class": "LennardJones", "settings": {"parameters": {1: {"sigma": 0.3, "epsilon": 0.0, "rcut": 0.5}}}},
+        {"class": "LennardJones", "settings": {"parameters": {1: {"sigma": 1.0, "epsilon": 0.6, "rcut": 8.0} if forces else {"sigma": 0.3, "epsilon": 0.0, "rcut": 0.5}}}},
         {"mass": list(masses), "name": ["Ar"] * n, "pos": [list(p[:dim]) for p in pos]},
         {"periodic": [True] * dim, "low": [0.0] * dim, "high": [50.0] * dim},
     )
